@@ -25,7 +25,10 @@ def main():
             out.append({"ok": False, "exc": type(e).__name__})
             continue
         if not res["ok"]:
-            out.append({"ok": False, "exc": type(res["exc"]).__name__, "stage": res["stage"]})
+            from sim import runner
+
+            sig = runner.exc_sig(res["exc"])
+            out.append({"ok": False, "exc": sig["exception"], "where": sig["where"], "stage": res["stage"]})
             continue
         left, right = res["left"], res["right"]
         h = hashlib.sha256()
